@@ -596,7 +596,7 @@ def run(ctx):
         "channel modules whose weight is longer than the channel width (F07) are outside the proved clauses "
         "(Art.C10.*_counterexample); they are exercised on the implementation only",
     ]
-    histories(ctx, ctx.scale(260, 5000), ctx.scale(14, 40))
-    oracle_channelwise(ctx, ctx.scale(240, 4000), ctx.scale(12, 40))
-    oracle_single(ctx, ctx.scale(120, 2400), ctx.scale(12, 40))
-    oracle_perm(ctx, ctx.scale(150, 3000), ctx.scale(12, 40))
+    histories(ctx, ctx.scale(1000, 8000), ctx.scale(14, 40))
+    oracle_channelwise(ctx, ctx.scale(900, 7000), ctx.scale(12, 40))
+    oracle_single(ctx, ctx.scale(480, 4000), ctx.scale(12, 40))
+    oracle_perm(ctx, ctx.scale(600, 5000), ctx.scale(12, 40))
